@@ -12,7 +12,7 @@ import timesgen as tg
 
 PROP = "C17"
 RULE = ("generated chronologically ordered TLE files (1..400 sets; gaps of hours to years; duplicated epochs; epochs in both "
-        "centuries around the 1950 pivot; dyadic day fractions for exact boundaries and random 8-digit fractions), each set "
+        "centuries around the 1950 pivot; sets on days 365 / 366 / 001 around the end of leap and common years; dyadic day fractions for exact boundaries and random 8-digit fractions), each set "
         "tagged with its index; query times before / inside / at exact midpoints (+-5 ms) / after the epochs; thresholds "
         "0.5, 1, 3, 7, 30 days incl. the exact edge; a case = (file, pass start, threshold); non-trivial = distinct case "
         "where the file has >= 2 sets")
@@ -49,12 +49,16 @@ def gen_epochs(rng, n, style):
     yy = rng.choice([57, 78, 99, 0, 1, 20, 49]) if style != "pivot" else 49
     e = []
     day = Fraction(rng.randrange(1, 300))
+    if style == "yearend":  # sets on the last days of a (leap or common) year and the first of the next: days 365, 366, 001
+        yy = rng.choice([60, 80, 96, 0, 4, 8, 12, 20, 48, 99, 1, 19])
+        day = Fraction(rng.choice([360, 362, 363]))
     year = 1900 + yy if yy >= 50 else 2000 + yy
     cur = datetime.datetime(year, 1, 1) + datetime.timedelta(days=int(day))
     t = Fraction((cur - EPOCH0).days)       # days since 1970, exact
     out = []
     for i in range(n):
         step = rng.choice([0, Fraction(1, 4), Fraction(1, 2), 1, 2, 3, 10, 40, 400]) if style == "dyadic" else \
+            rng.choice([Fraction(1, 4), Fraction(1, 2), Fraction(3, 4), 1]) if style == "yearend" else \
             rng.choice([0, Fraction(rng.randrange(1, 10 ** 8), 10 ** 8) * rng.choice([1, 3, 9]), rng.randrange(1, 30)])
         if i:
             t += step
@@ -74,8 +78,8 @@ def run(res, tier, seed):
     nfiles = 14 if tier == "quick" else 80
     with common.scratch_dir() as d:
         for fi in range(nfiles):
-            style = rng.choice(["dyadic", "random", "random", "pivot"])
-            n = rng.choice([1, 2, 3, 5, 20, 120, 400])
+            style = rng.choice(["dyadic", "random", "random", "pivot"]) if fi % 5 else "yearend"
+            n = rng.choice([1, 2, 3, 5, 20, 120, 400]) if style != "yearend" else rng.choice([12, 20])
             eps = gen_epochs(rng, n, style)
             if not eps:
                 continue
